@@ -29,7 +29,7 @@ RULE = ("each run = one REPL session: a seeded history of definitions, redefinit
         "by a line that uses earlier state")
 ASSUMPTIONS = [
     "script mode of the same binary is the reference semantics (the property defines the expected output that way)",
-    "the REPL's echo of a line's last value is decoration: one extra trailing line is tolerated for accepted lines, never required",
+    "accepted lines are referenced in -c mode, which echoes the program's last non-null value exactly like the REPL echoes a line's; the comparison is then exact (this relies on -c and script mode running a program the same way, C24)",
     "[line N] prefixes of diagnostics are normalised (the REPL numbers every entry from 1)",
     "generated failing statements are side-effect free up to their failure point, and later lines never use a name whose only definition lies at or after a failing statement",
     "maps with more than one entry are not printed (iteration order depends on how many hash maps the process created before)",
@@ -40,6 +40,7 @@ PROBES = [
     "probe.parse_reject", "probe.compile_reject", "probe.compile_reject_after_redefinition", "probe.compile_reject_in_fn_body",
     "probe.runtime_error_line", "probe.runtime_error_after_effects", "probe.continued_line",
     "probe.closure_call", "probe.recursion", "probe.echo_seen", "probe.use_after_reject", "probe.two_rejects_in_a_row",
+    "probe.blank_entry", "probe.continued_line_closed_by_blank", "probe.comment_only_line", "probe.runtime_error_inside_call",
 ]
 COMPONENTS = {
     "real": ["p2sh release binary (run_prompt loop, Prompt::show / dialoguer, parser, compiler state hand-over, VM)",
@@ -192,7 +193,9 @@ def _gen_failing(rng, env, stats):
         return {"kind": "compile", "text": " ".join(pre + [bad]), "cut": None, "redef": redef, "infn": infn, "defines": bool(pre_eff)}
     # runtime error: the prefix runs (and may print / define), then a side-effect-free failing statement
     funs = [n for n, k in env.items() if k == "fn"]
-    fail_forms = ["1 / 0;", "len(5);", "5(1);", '"a" - 1;', "let %s = 1 / 0;" % rng.choice(VARS), "[1][0](2);", "-len(5);"]
+    fail_forms = ["1 / 0;", "len(5);", "5(1);", '"a" - 1;', "let %s = 1 / 0;" % rng.choice(VARS), "[1][0](2);", "-len(5);",
+                  # failures *inside* a called function (frames are live when the error is raised)
+                  "(fn(n) { n / 0 })(1);", "(fn(n) { len(n) })(5);", "(fn(n) { (fn(m) { m / 0 })(n) })(2);"]
     if funs:
         fail_forms.append("%s(1, 2);" % funs[0])
     bad = rng.choice(fail_forms)
@@ -230,6 +233,16 @@ def generate(rng, tier, idx):
             if rng.chance(85):
                 lines.append({"kind": "probe", "text": _probe_line(env), "cut": None})
             continue
+        special = rng.weighted([(88, None), (4, "blank"), (5, "comment"), (3, "spaces")])
+        if special == "blank":
+            lines.append({"kind": "blank", "text": "", "cut": None})
+            continue
+        if special == "spaces":
+            lines.append({"kind": "blank", "text": "   ", "cut": None})
+            continue
+        if special == "comment":
+            lines.append({"kind": "ok", "text": rng.choice(["# just a comment", "// nothing to run here", "# let a = 99;"]), "cut": None})
+            continue
         stmts = []
         for _ in range(rng.weighted([(50, 1), (35, 2), (15, 3)])):
             t, eff = _ok_stmt(rng, env, stats)
@@ -243,6 +256,9 @@ def generate(rng, tier, idx):
             # continued entry: break the logical line after a '{'
             p = text.index("{ ") + 1
             ln["text"] = text[:p] + "\n" + text[p + 1:]
+        elif rng.chance(6):
+            # continued entry that is finished by an empty physical line
+            ln["text"] = text + " \n"
         lines.append(ln)
     if rng.chance(50):
         lines.append({"kind": "probe", "text": _probe_line(env), "cut": None})
@@ -261,12 +277,14 @@ def reference_source(model, k):
     """script made of all previously accepted lines (cut before their failing statement), a marker, then line k"""
     prev = []
     for ln in model["lines"][:k]:
+        if ln["kind"] == "blank":
+            continue
         if ln["kind"] in ("ok", "probe"):
             prev.append(ln["text"])
         elif ln["kind"] == "runtime":
             if ln["cut"]:
                 prev.append(ln["cut"])
-    return "\n".join(prev + ['eprintln("%s");' % MARK, model["lines"][k]["text"]]) + "\n"
+    return "\n".join(prev + ['puts("%s");' % MARK, model["lines"][k]["text"]]) + "\n"
 
 
 def execute(model, wd):
@@ -282,15 +300,26 @@ def execute(model, wd):
         res.segs_by_line[owner[i]] = res.segs_by_line.get(owner[i], "") + s
     results = [res]
     for k in range(len(model["lines"])):
-        conc = {"argv": ["s.p2"], "script": reference_source(model, k), "files": {}, "dirs": [], "stdin": None,
-                "plan": {"rseed": model["rseed"]}, "merge_output": True}
-        results.append(runner.run_concrete(wd, conc, clean=False))
+        results.append(runner.run_concrete(wd, reference_concrete(model, k), clean=False))
     return results
+
+
+def reference_concrete(model, k):
+    """Accepted lines are referenced in -c mode, which (like the REPL) echoes the program's last value, so the
+    echo can be compared exactly; failing lines in script mode (-c echoes even after a runtime error, the REPL
+    does not).  A blank entry needs no reference."""
+    kind = model["lines"][k]["kind"]
+    if kind == "blank":
+        return {"argv": ["-c", ""], "script": None, "files": {}, "dirs": [], "stdin": None, "plan": {"rseed": model["rseed"]}, "merge_output": True}
+    src = reference_source(model, k)
+    if kind in ("ok", "probe"):
+        return {"argv": ["-c", src], "script": None, "files": {}, "dirs": [], "stdin": None, "plan": {"rseed": model["rseed"]}, "merge_output": True}
+    return {"argv": ["s.p2"], "script": src, "files": {}, "dirs": [], "stdin": None, "plan": {"rseed": model["rseed"]}, "merge_output": True}
 
 
 def render(model):
     return [{"argv": [], "script": "\n".join(p for ln in model["lines"] for p in physical(ln["text"])) + "\n", "files": {}, "plan": {"rseed": model["rseed"]}}] + [
-        {"argv": ["s.p2"], "script": reference_source(model, k), "files": {}, "plan": {"rseed": model["rseed"]}} for k in range(len(model["lines"]))]
+        reference_concrete(model, k) for k in range(len(model["lines"]))]
 
 
 # ---------------------------------------------------------------------------
@@ -346,6 +375,21 @@ def check(model, results):
         if "fn(n) { if n < 2" in ln["text"]:
             inc("probe.recursion")
         inc("ops." + kind)
+        if kind == "blank":
+            inc("probe.blank_entry")
+            if seg is None:
+                viols.append(_viol("session:short", "no REPL output recorded for line %d" % k))
+                break
+            if seg != "":
+                viols.append(_viol("blank_line:output", "line %d (blank entry): the REPL printed %r" % (k, seg[:200])))
+            classes.append("b")
+            continue
+        if ln["text"].endswith("\n"):
+            inc("probe.continued_line_closed_by_blank")
+        if ln["text"].lstrip().startswith(("#", "//")):
+            inc("probe.comment_only_line")
+        if "(fn(n)" in ln["text"] and kind == "runtime":
+            inc("probe.runtime_error_inside_call")
         if seg is None or ref is None:
             if not viols:
                 viols.append(_viol("session:short", "no REPL output recorded for line %d" % k))
@@ -386,23 +430,20 @@ def check(model, results):
                 break
             ok = got == want
             if not ok:
-                viols.append(_viol("runtime_line:output:%s" % ctx, "line %d %r: REPL printed %r, script mode prints %r" % (k, ln["text"], got[:300], want[:300])))
+                viols.append(_viol("runtime_line:output", "line %d %r (%s): REPL printed %r, script mode prints %r" % (k, ln["text"], ctx, got[:300], want[:300])))
             classes.append("r" + ("=" if ok else "!"))
             last_reject = "runtime"
             seen_fail = True
             continue
-        # accepted line: exact, or exact plus the REPL's echo of the last value (one extra final line)
+        # accepted line: exact, including the echo of the line's last value (the -c reference echoes it too)
         if seen_fail:
             nontrivial = True
             inc("probe.use_after_reject")
         ok = got == want
-        if not ok and got.startswith(want):
-            extra = got[len(want):]
-            if extra.endswith("\n") and extra.count("\n") == 1:
-                ok = True
-                inc("probe.echo_seen")
+        if ok and want and not ln["text"].rstrip().endswith(";") and "\n" not in ln["text"]:
+            inc("probe.echo_seen")
         if not ok:
-            viols.append(_viol("%s_line:output:%s" % ("probe" if kind == "probe" else "accepted", ctx),
+            viols.append(_viol("%s_line:output" % ("probe" if kind == "probe" else "accepted"),
                                "line %d %r (%s): REPL printed %r, a script of the accepted history prints %r; history so far: %r" % (
                                    k, ln["text"], ctx, got[:300], want[:300], [l["text"] for l in lines[:k]][-4:])))
         classes.append(("p" if kind == "probe" else "a") + ("=" if ok else "!"))
